@@ -769,11 +769,19 @@ def gen_entries():
     return out
 
 
+def shuf_entries():
+    """C01/C05: seeded data-movement functions with reference semantics (gen_shuf.py)."""
+    import gen_shuf
+    return gen_shuf.shuf_entries()
+
+
+SHUF_HEADER = "#[inline(never)]\nfn idf<T>(x: T) -> T { x }\n"
+
 EXTRA_FAMILIES = {
     "bounded": bounded_entries, "plumb": plumbing_entries, "gas": gas_entries,
     "hash": hash_entries, "gen": gen_entries, "spec": specialization_entries,
     "fold": fold_entries, "bigap": bigap_entries, "flow": flow_entries,
-    "edge": edge_entries,
+    "edge": edge_entries, "shuf": shuf_entries,
 }
 import gen as _gen
-EXTRA_HEADERS = {"edge": EDGE_HEADER, "flow": FLOW_HEADER, "spec": SPEC_HEADER, "gen": _gen.PRELUDE, "bounded": BI_HEADER, "plumb": PLUMB_HEADER, "gas": GAS_HEADER, "hash": HASH_HEADER}
+EXTRA_HEADERS = {"shuf": SHUF_HEADER, "edge": EDGE_HEADER, "flow": FLOW_HEADER, "spec": SPEC_HEADER, "gen": _gen.PRELUDE, "bounded": BI_HEADER, "plumb": PLUMB_HEADER, "gas": GAS_HEADER, "hash": HASH_HEADER}
